@@ -1206,13 +1206,19 @@ impl<E: El> Rest<E> {
 
 impl<E: El> World<E> {
     fn new(cfg: &Cfg) -> Self {
-        let mut ob = ObservableVector::<E>::with_capacity(cfg.capacity);
         let mut next_id = 0u16;
         let mut vec = Vec::new();
-        if cfg.init_len > 0 {
-            let v: Vector<E> = (0..cfg.init_len).map(|i| E::mk(0, i as u16)).collect();
-            ob.append(v);
-        }
+        let init: Vector<E> = (0..cfg.init_len).map(|i| E::mk(0, i as u16)).collect();
+        // capacity 16 is what `new()` / `From<Vector>` give: use those constructors there
+        let ob = if cfg.capacity == 16 && cfg.init_len > 0 {
+            ObservableVector::<E>::from(init)
+        } else {
+            let mut ob = if cfg.capacity == 16 { ObservableVector::<E>::new() } else { ObservableVector::<E>::with_capacity(cfg.capacity) };
+            if cfg.init_len > 0 {
+                ob.append(init);
+            }
+            ob
+        };
         op_effect(Op::Append(cfg.init_len), &mut vec, &mut next_id);
         let mut r = Rest { cfg: cfg.clone(), vec, next_id, alive: true, subs: Vec::new(), probe: None, msgs: Vec::new(), step: 0, _p: PhantomData };
         if cfg.probe {
@@ -1294,7 +1300,12 @@ impl<E: El> World<E> {
         if got != self.r.vec {
             return Err(viol("C17", self.r.step, "contents/final", format!("contents {:?} != model {:?}", got, self.r.vec)));
         }
-        drop(ob);
+        // turning the vector back into a plain one drops the sender as well
+        let inner = ob.into_inner();
+        if kids_im(&inner) != self.r.vec {
+            return Err(viol("C17", self.r.step, "contents/into_inner", format!("into_inner() gives {:?}, model {:?}", kids_im(&inner), self.r.vec)));
+        }
+        drop(inner);
         self.r.alive = false;
         self.r.probe = None;
         for (i, s) in self.r.subs.iter().enumerate() {
